@@ -91,6 +91,10 @@ ACCEPT_SAME = [("1+2*3", " 1 +\t2 /*c*/ * // d\n 3 "), ("var a=[1,2,3];a[1]", "v
                ("/\\//.test('/')", "!(!(/\\//.test('/')))"), ("'a/b'.split(/\\//).length", "('a/b'.split((/\\//)).length)"), ("/\"/.test('\"')", "(/\"/.test('\"'))"),
                ("var f = function(r){ return r.source }; f(/a'b/)", "var f = function(r){ return r.source }; (f((/a'b/)))"), ("/\\)/.test(')')", "(/\\)/.test(')'))"), ("/[(]/.test('(')", "((/[(]/).test('('))"),
                ("1 + 2", "1 /**/ + /***/ 2"), ("1 + 2", "1 /** doc **/ + 2 /* * / */"), ("1 + 2", "/*/ */ 1 + 2 /* // */"), ("1 + 2", "1 + // /* \n 2"), ("1 + 2", "1 /* \n // \n */ + 2"), ("3 * 4", "3 /****/ * /** * **/ 4"),
+               # an arrow function's body is an assignment expression: a comma after it belongs to the enclosing list
+               ("(function(){ return arguments.length })(x => x, 5)", "2"), ("[x => x + 1, 7].length", "2"), ("(x => x, 9)", "9"), ("var a = x => x, b = 2; b", "2"),
+               ("[(a, b) => a, 7, 8].length", "3"), ("({f: x => x, g: 2}).g", "2"), ("(function(){ return arguments.length })(() => 1, () => 2, 3)", "3"),
+               ("[1].map(x => x * 2, 0)[0]", "2"), ("var f = x => y => x + y, k = 5; f(1)(2) + k", "8"), ("(x => (x, 9))(1)", "9"), ("true ? x => x : 0, 4", "4"),
                ("typeof typeof 1", "typeof (typeof 1)"), ("!!'a'", "! ( ! 'a' )"), ("1 - -1", "1 - (-1)"), ("var a=1;a+++1", "var a = 1; (a++) + 1"), ("[[1].length,[2,3].length]", "[ [ 1 ] . length , [ 2 , 3 ] . length ]")]
 
 
@@ -195,6 +199,139 @@ def c13_bounded(tier="quick", seed=0):
 def _inside_regex(p, o):
     i = p.find("/a+b/")
     return i >= 0 and i < o < i + 5
+
+
+# ---- bounded: every spelling of a numeric literal denotes the double ECMAScript assigns to it ---------------------------------
+@groups.group(id="C13.bounded.numeric-literals", prop="C13", kind="B", functions=["microjs.lexer:Lexer._read_number"])
+def c13_numeric_literals(tier="quick", seed=0):
+    """integer literals of 1 to 23 digits around the precision boundaries, their fraction / exponent / hexadecimal / octal /
+    binary spellings and very long literals (up to 5000 digits): each evaluates to the correctly rounded double, is
+    strictly equal to every other spelling of the same number and to Number() of its text"""
+    import random
+    from microjs import Context
+    import specs.es_core as CORE_
+    r = random.Random(seed)
+    ints = set()
+    for k in range(1, 24):
+        ints.update([int("9" * k), 10 ** (k - 1), 10 ** (k - 1) + 1, int("5" * k)])
+    for d in range(-3, 4):
+        for m in (2 ** 53, 2 ** 53 * 2, 2 ** 63, 2 ** 64, 2 ** 31, 2 ** 32, 10 ** 15, 10 ** 16, 10 ** 17, 10 ** 21, 10 ** 22):
+            ints.add(m + d)
+    for _ in range(200 if tier == "quick" else 5000):
+        ints.add(int("".join(r.choice("0123456789") for _ in range(r.randint(14, 22))).lstrip("0") or "0"))
+    c = Context(time_limit=60)
+    bad = None
+    n = 0
+    for v in sorted(ints):
+        t = str(v)
+        want = CORE_.ToString(float(v))
+        forms = [t, t + ".0", t + ".", t + "e0", t + "E+0", t[:-1] + "." + t[-1] + "e1" if len(t) > 1 else t, "0x" + format(v, "x"), "0X" + format(v, "X"), "0o" + format(v, "o"), "0b" + format(v, "b")]
+        src = "[" + ", ".join(f"String({f})" for f in forms) + ", " + " && ".join(f"({forms[0]}) === ({f})" for f in forms[1:]) + f", ({t}) === Number('{t}'), ({t}) % 2" + "]"
+        n += 1
+        try:
+            got = c.eval(src)
+        except Exception as e:  # noqa
+            got = "!" + type(e).__name__ + ": " + str(e)[:60]
+            c = Context(time_limit=60)
+        exp = [want] * len(forms) + [True, True, float(v) % 2]
+        if got != exp and bad is None:
+            bad = (src, f"{got!r}"[:200], f"{exp!r}"[:120])
+    for digits in (300, 310, 1000, 4300, 4301, 5000):
+        for t, want in (("1" * digits, "Infinity" if digits > 308 else None), ("0." + "0" * digits + "1", None), ("1" * digits + ".5e-" + str(digits), None), ("0" * digits + "7", "7")):
+            n += 1
+            try:
+                got = c.eval(f"String({t})")
+            except Exception as e:  # noqa
+                got = "!" + type(e).__name__ + ": " + str(e)[:60]
+                c = Context(time_limit=60)
+            w = want if want is not None else CORE_.ToString(float(t))
+            if t.startswith("0") and not t.startswith("0.") and len(t) > 1:
+                continue        # (a leading zero is a legacy octal form: not judged)
+            if got != w and bad is None:
+                bad = (f"String({t[:30]}...<{len(t)} characters>)", got, w)
+    return [ob("C13.bounded.numeric-literals", bad is None, "B", f"{n} numbers x 10 spellings" if bad is None else f"{bad[0][:200]} -> {bad[1]}, expected {bad[2]}",
+               witness=(bad[0] if bad else None), confirmed=True if bad else None, domain=n)]
+
+
+# ---- bounded: token positions are exact whatever trivia precedes them ---------------------------------------------------
+def _layouts(seed, n):
+    """(source, [(line, column) of each token]) for token sequences glued with random trivia: spaces, tabs, newlines,
+    line comments, block comments on one line and over several lines (positions computed here, independently)"""
+    import random
+    r = random.Random(seed)
+    toks = ["foo", "bar", "=", "12", "'str'", "(", ")", "+", "x1", "{", "}", ";", "0x1F", "===", "a.b", "[", "]", "=>", "typeof", "1.5e3", "\"q\""]      # (regex literals are lexed on the parser's request: not here)
+    trivia = [" ", "  ", "\t", "\n", "\n\n", " \n ", "/* c */", "/**/", "/* a\n b */", "/* x\n\n   yy\n*/", "// line\n", "//\n", "/* * / */", " /* a\n */ ", "\t/*\n*/\t", "/* é😀\n é */"]
+    for _ in range(n):
+        src, pos, line, col = "", [], 1, 1
+
+        def put(text):
+            nonlocal src, line, col
+            src += text
+            for ch in text:
+                if ch == "\n":
+                    line, col = line + 1, 1
+                else:
+                    col += 1
+        for _k in range(r.randint(1, 7)):
+            for _t in range(r.randint(0, 3)):
+                put(r.choice(trivia))
+            if src and not src[-1].isspace() and not src.endswith("*/"):
+                put(" ")
+            tk = r.choice(toks)
+            pos.append((line, col, tk))
+            put(tk)
+        yield src, pos
+
+
+@groups.group(id="C13.bounded.positions", prop="C13", kind="B", functions=["microjs.lexer:Lexer.next_token", "microjs.lexer:Lexer._skip_whitespace", "microjs.lexer:Lexer._advance"])
+def c13_positions(tier="quick", seed=0):
+    """every token carries the line and column at which it starts, whatever white space and comments (also comments
+    spanning lines) precede it; a character the lexer rejects is reported at its own position; a throw statement reports
+    the position of its keyword"""
+    from microjs.lexer import Lexer
+    from microjs import Context
+    from microjs.errors import JSSyntaxError
+    n = 1500 if tier == "quick" else 20000
+    bad = {"token": None, "syntax-error": None, "throw": None}
+    cnt = {"token": 0, "syntax-error": 0, "throw": 0}
+    for src, pos in _layouts(seed, n):
+        try:
+            got = [(t.line, t.column) for t in Lexer(src).tokenize() if t.type.name != "EOF"]
+        except Exception as e:  # noqa
+            got = "!" + type(e).__name__ + ": " + str(e)[:60]
+        # a.b is three tokens (a . b)
+        want = []
+        for ln, cl, tk in pos:
+            if tk == "a.b":
+                want += [(ln, cl), (ln, cl + 1), (ln, cl + 2)]
+            else:
+                want.append((ln, cl))
+        cnt["token"] += 1
+        if got != want and bad["token"] is None:
+            bad["token"] = (src, f"token positions {got}, expected {want}")
+        # the same trivia in front of a character that is no token
+        lead = src[:src.index(pos[0][2])] if pos else ""
+        ln, cl = pos[0][0], pos[0][1]
+        cnt["syntax-error"] += 1
+        try:
+            Context(time_limit=10).eval(lead + "@")
+            res = "accepted"
+        except JSSyntaxError as e:
+            res = (e.line, e.column)
+        except Exception as e:  # noqa
+            res = "!" + type(e).__name__
+        if res != (ln, cl) and bad["syntax-error"] is None:
+            bad["syntax-error"] = (lead + "@", f"JSSyntaxError at {res}, the character is at {(ln, cl)}")
+        cnt["throw"] += 1
+        try:
+            res = Context(time_limit=10).eval("var r; try {" + lead + "throw new Error('x') } catch (e) { r = [e.lineNumber, e.columnNumber] } r")
+        except Exception as e:  # noqa
+            res = "!" + type(e).__name__
+        wl, wc = (ln, cl + len("var r; try {")) if ln == 1 else (ln, cl)
+        if res != [wl, wc] and bad["throw"] is None:
+            bad["throw"] = ("var r; try {" + lead + "throw new Error('x') } catch (e) { r = [e.lineNumber, e.columnNumber] } r", f"location {res}, the throw keyword is at {[wl, wc]}")
+    return [ob(f"C13.bounded.positions.{k}", b is None, "B", f"{cnt[k]} layouts" if b is None else b[1], witness=(b[0] if b else None), confirmed=True if b else None, domain=cnt[k])
+            for k, b in bad.items()]
 
 
 # ---- K4: string escapes, decided over all code units -----------------------------------------------------------------------
